@@ -756,6 +756,14 @@ impl<'a> ClientAssociationOptions<'a> {
             !presentation_contexts.is_empty(),
             crate::association::MissingAbstractSyntaxSnafu
         );
+        // presentation context identifiers are the odd numbers from 1 to 255,
+        // so no more than 128 contexts can be proposed
+        ensure!(
+            presentation_contexts.len() <= 128,
+            crate::association::TooManyPresentationContextsSnafu {
+                count: presentation_contexts.len(),
+            }
+        );
 
         // choose called AE title
         let called_ae_title: &str = match (&called_ae_title, ae_title) {
